@@ -9,12 +9,13 @@
 (*        order, and the TXID it ends at;                                    *)
 (*   ResumeCheck(files, sidecar) = the crash-recovery branch of Restore      *)
 (*        (replica.go:627-665).                                              *)
-(* A file is [lvl, min, max, ts]. Variant: "asis" | "fixed" | "m_pubfirst" | *)
-(* "m_gap" | "m_gap0" (see Follow.tla).                                      *)
+(* A file is [lvl, min, max, ts].                                            *)
 (***************************************************************************)
 EXTENDS Integers, Sequences, FiniteSets, SequencesExt, TLC
 
-CONSTANT Variant
+CONSTANTS Variant,   \* "asis" | "m_pubfirst" | "m_gap" | "m_gap0": the code, or one of the seeded mutants of tools/checks/c16.py
+          Fixes      \* subset of {"W1", "W2", "W3"}: findings repaired in the tree under test (tools/checks/c16.py sets it
+                     \* to the findings of DESIGN section 8 that are no longer listed as known)
 
 PA == INSTANCE RestorePlan WITH Levels <- {0, 1, 2, 9}
 
@@ -38,7 +39,8 @@ FillLevel(s, i, c, gapMin, acc) ==
   ELSE FillLevel(s, i + 1, s[i].max, gapMin, Append(acc, s[i]))
 
 \* levels 1..8; the snapshot level is never consulted                               replica.go:1017
-FillLevels == IF Variant = "fixed" THEN <<1, 2, 3, 4, 5, 6, 7, 8, 9>> ELSE <<1, 2, 3, 4, 5, 6, 7, 8>>
+\* (repair of W2: the snapshot level is the last resort)
+FillLevels == IF "W2" \in Fixes THEN <<1, 2, 3, 4, 5, 6, 7, 8, 9>> ELSE <<1, 2, 3, 4, 5, 6, 7, 8>>
 RECURSIVE FillFrom(_, _, _, _)
 FillFrom(files, k, after, gapMin) ==
   IF k > Len(FillLevels) THEN [cur |-> after, fs |-> <<>>]
@@ -69,11 +71,11 @@ PollFiles(files, after) ==
 \* crash recovery: database exists                                                   replica.go:627-665
 ResumeCheck(files, sd) ==
   IF sd = 0 THEN "nosidecar"                                                        \* :633
-  ELSE IF Variant = "fixed" THEN (IF sd > MaxTX(files) THEN "ahead" ELSE "ok")
-  ELSE LET s == PA!LevelSeq(files, 9) IN
-       IF Len(s) = 0 THEN "ok"
-       ELSE LET ls == s[Len(s)] IN                                                  \* last item of the iterator = newest snapshot
-            IF ls.min > sd THEN "behind"                                            \* :655
-            ELSE IF sd > ls.max THEN "ahead"                                        \* :658
-            ELSE "ok"
+  ELSE LET s == PA!LevelSeq(files, 9)
+           ls == s[Len(s)]                                                          \* last item of the iterator = newest snapshot
+       IN IF Len(s) > 0 /\ ls.min > sd THEN "behind"                                \* :655
+          ELSE IF "W1" \in Fixes                                                    \* repair of W1: ahead of the replica at every level
+                 THEN (IF sd > MaxTX(files) THEN "ahead" ELSE "ok")
+          ELSE IF Len(s) > 0 /\ sd > ls.max THEN "ahead"                            \* :658
+          ELSE "ok"
 =============================================================================
